@@ -9,6 +9,7 @@ import (
 	"strings"
 	"time"
 
+	"github.com/pentops/j5/gen/j5/ext/v1/ext_j5pb"
 	"github.com/shopspring/decimal"
 	"google.golang.org/protobuf/proto"
 	"google.golang.org/protobuf/reflect/protoreflect"
@@ -216,6 +217,20 @@ func equalSingle(fd protoreflect.FieldDescriptor, a, b protoreflect.Value, path 
 }
 
 // representable reports why a message lies outside C01's domain ("" when inside).
+// enumOptionDefined: the number is a declared value and, for an enum annotated no_default (no
+// UNSPECIFIED option in the J5 schema), not the zero value.
+func enumOptionDefined(ed protoreflect.EnumDescriptor, n protoreflect.EnumNumber) bool {
+	if ed.Values().ByNumber(n) == nil {
+		return false
+	}
+	if n == 0 {
+		if o, ok := proto.GetExtension(ed.Options(), ext_j5pb.E_Enum).(*ext_j5pb.EnumOptions); ok && o != nil && o.NoDefault {
+			return false
+		}
+	}
+	return true
+}
+
 func notRepresentable(m protoreflect.Message) string {
 	w := map[string]int{}
 	scanWide(m, w)
@@ -250,6 +265,9 @@ func notRepresentable(m protoreflect.Message) string {
 			one := func(fd protoreflect.FieldDescriptor, v protoreflect.Value) {
 				if fd.Kind() == protoreflect.MessageKind {
 					walk(v.Message())
+				}
+				if fd.Kind() == protoreflect.EnumKind && !enumOptionDefined(fd.Enum(), v.Enum()) {
+					why = "enum number without a J5 option"
 				}
 			}
 			switch {
